@@ -15,6 +15,8 @@ import (
 	"fmt"
 	"strings"
 	"sync"
+	"sync/atomic"
+	"time"
 
 	"github.com/rivo/uniseg"
 
@@ -45,13 +47,17 @@ type CellD struct {
 }
 
 type Scn struct {
-	Kind   string   // generator name
-	Prod   string   `json:",omitempty"` // cells | ss | render ; empty for fuzz
-	Legacy bool     `json:",omitempty"` // run with VAXIS_FORCE_LEGACY_SGR (semicolon colours)
-	Mask   int      `json:",omitempty"` // render: responder capability mask
-	Sparse bool     `json:",omitempty"` // render: second frame redraws every other cell only
-	Cells  []CellD  `json:",omitempty"`
-	Fuzz   []string `json:",omitempty"` // raw parameter strings (between CSI and m)
+	Kind   string  // generator name
+	Prod   string  `json:",omitempty"` // cells | ss | render ; empty for fuzz
+	Legacy bool    `json:",omitempty"` // run with VAXIS_FORCE_LEGACY_SGR (semicolon colours)
+	Mask   int     `json:",omitempty"` // render: responder capability mask
+	Sparse bool    `json:",omitempty"` // render: second frame redraws every other cell only
+	Cells  []CellD `json:",omitempty"`
+	// Stall n > 0: ParseStyledString reads the producer's string under the schedule "the parser's goroutine is
+	// held up right after it took the n-th ESC of the string (counted round the string's ESCs) for longer than
+	// the library's Escape-key delay". What a string means does not depend on the schedule.
+	Stall int      `json:",omitempty"`
+	Fuzz  []string `json:",omitempty"` // raw parameter strings (between CSI and m)
 }
 
 func (s StyleD) V() vaxis.Style {
@@ -146,14 +152,31 @@ func asciiOnly(s string) string {
 // every CSI m the (library's) input parser delivers; every printed grapheme
 // takes the pen.
 func emuRead(s string) []vaxis.Cell {
+	// The harness's own use of the library's input parser (made for a keyboard: an ESC that nothing follows
+	// within 10 ms of wall-clock time is reported as the Escape key, C0 0x1B). No string handed to this
+	// function has an ESC outside a control sequence or control string, so an Escape key in the parser's
+	// output means that this goroutine pair was held up by the machine: not an observation of the SGR
+	// handler - read again.
+	for try := 0; ; try++ {
+		out, escKey := emuReadOnce(s)
+		if !escKey || try == 20 {
+			return out
+		}
+	}
+}
+
+func emuReadOnce(s string) (out []vaxis.Cell, escKey bool) {
 	// the whole string is buffered: where the parser's reader happens to refill is
 	// irrelevant to the SGR handler under observation
 	p := ansi.NewParser(bufio.NewReaderSize(strings.NewReader(s), len(s)+16))
 	defer p.Close()
 	var pen vaxis.Style
-	var out []vaxis.Cell
 	for seq := range p.Next() {
 		switch seq := seq.(type) {
+		case ansi.C0:
+			if seq == 0x1B {
+				escKey = true
+			}
 		case ansi.Print:
 			out = append(out, vaxis.Cell{Character: vaxis.Character{Grapheme: seq.Grapheme, Width: seq.Width}, Style: pen})
 		case ansi.CSI:
@@ -163,13 +186,75 @@ func emuRead(s string) []vaxis.Cell {
 		}
 		p.Finish(seq)
 	}
-	return out
+	return out, escKey
 }
 
-// consume runs the three consumers on s.
-func (c *Ctx) consume(s string) (dec map[string][][]int, pan string) {
+// StallCap bounds how long a stalled parser waits for an Escape timer (there may be none).
+const StallCap = 150 * time.Millisecond
+
+// stalledParse is ParseStyledString(s) under one schedule of the goroutines the library itself starts for the
+// call: the parsing goroutine is held at its loop head right after it has taken the n-th ESC of s (a machine
+// under load, one CPU and busy goroutines, a collection pause) until the library's Escape-key timer, if one is
+// pending, has expired and its callback is done - at most StallCap otherwise. Uses the library's verif hook
+// points of the parser loop ("run.top": before a character is read; "timer.done": a timer callback returned);
+// every character of s up to that ESC must be a single byte so that loop rounds are bytes. The caller makes
+// sure no other parser runs meanwhile (the hook is process-wide).
+func (c *Ctx) stalledParse(s string, n int) []vaxis.Cell {
+	var offs []int
+	for i := 0; i < len(s); i++ {
+		if s[i] >= 0x80 {
+			break
+		}
+		if s[i] == 0x1b {
+			offs = append(offs, i)
+		}
+	}
+	if len(offs) == 0 {
+		c.Cov.stall(-1)
+		return vaxis.ParseStyledString(s)
+	}
+	off := offs[(n-1)%len(offs)]
+	var tops int32
+	done := make(chan struct{}, 1)
+	ansi.VerifHook = func(pt string) {
+		switch pt {
+		case "run.top":
+			// round off+1 took the byte at off; this is the head of the round after it
+			if int(atomic.AddInt32(&tops, 1)) == off+2 {
+				t := time.NewTimer(StallCap)
+				select { // a callback of an earlier ESC's timer is not the one waited for
+				case <-done:
+				default:
+				}
+				select {
+				case <-done:
+					c.Cov.stall(1)
+				case <-t.C:
+					c.Cov.stall(0)
+				}
+				t.Stop()
+			}
+		case "timer.done":
+			select {
+			case done <- struct{}{}:
+			default:
+			}
+		}
+	}
+	defer func() { ansi.VerifHook = nil }()
+	return vaxis.ParseStyledString(s)
+}
+
+// consume runs the three consumers on s (stall > 0: ParseStyledString under that schedule).
+func (c *Ctx) consume(s string, stall int) (dec map[string][][]int, pan string) {
 	dec = map[string][][]int{"parse": {}, "nss": {}, "emu": {}}
-	guard("ParseStyledString", &pan, func() { dec["parse"] = c.tuples(vaxis.ParseStyledString(s)) })
+	guard("ParseStyledString", &pan, func() {
+		if stall > 0 {
+			dec["parse"] = c.tuples(c.stalledParse(s, stall))
+		} else {
+			dec["parse"] = c.tuples(vaxis.ParseStyledString(s))
+		}
+	})
 	guard("NewStyledString", &pan, func() {
 		vx, err := c.vx()
 		if err != nil {
@@ -286,10 +371,10 @@ func Run(ctx *Ctx, sc *Scn) (evs []trace.Ev, note string) {
 	evs = append(evs, tok...)
 	dec := map[string][][]int{"parse": {}, "nss": {}, "emu": {}}
 	if pan == "" {
-		dec, pan = ctx.consume(filtered)
+		dec, pan = ctx.consume(filtered, sc.Stall)
 	}
 	ctx.Cov.scenario(sc, rt)
-	evs = append(evs, trace.Ev{"ev": "end", "prod": sc.Prod, "rt": rt, "in": in, "dec": dec, "pan": pan})
+	evs = append(evs, trace.Ev{"ev": "end", "prod": sc.Prod, "rt": rt, "in": in, "dec": dec, "pan": pan, "stall": sc.Stall})
 	return evs, pan
 }
 
@@ -344,7 +429,7 @@ func (c *Ctx) runFuzz(sc *Scn) []trace.Ev {
 		if len(toks) > 0 && toks[0].K == lexer.CSI && toks[0].Params != nil {
 			ps = toks[0].Params
 		}
-		dec, pan := c.consume(s)
+		dec, pan := c.consume(s, 0)
 		c.Cov.fuzz(raw)
 		evs = append(evs, trace.Ev{"ev": "fuzz", "ps": ps, "dec": dec, "pan": pan})
 	}
